@@ -172,7 +172,9 @@ RECURSIVE EvalCase(_, _, _, _)
 Eval(e, fr, r, c) ==
   CASE e.t = "col"  -> r[CHOOSE i \in Matches(fr, e.q, e.name) : TRUE]
     [] e.t = "lit"  -> e.v
-    [] e.t = "un"   -> IF e.op = "-" THEN Neg(Eval(e.e, fr, r, c)) ELSE Not3(Eval(e.e, fr, r, c))
+    [] e.t = "un"   -> IF e.op = "-" THEN Neg(Eval(e.e, fr, r, c))
+                       ELSE IF e.op = "+" THEN Eval(e.e, fr, r, c)            \* unary plus: the operand itself
+                       ELSE Not3(Eval(e.e, fr, r, c))
     [] e.t = "bin"  ->
          IF e.op = "==" /\ IsNullLit(e.r) THEN
               (LET v == Eval(e.l, fr, r, c) IN IF IsUndef(v) THEN Undef ELSE B(IsNull(v)))
